@@ -61,7 +61,11 @@ pub fn run_session(
                     fed_bytes.push(0);
                     last_snap.push(None);
                 }
-                slots[*d] = Some(Slot::new(*opts));
+                let mut sl = Slot::new(*opts);
+                if s.max_chunk > 0 {
+                    sl.set_max_chunk(s.max_chunk);
+                }
+                slots[*d] = Some(sl);
                 fed[*d].clear();
                 fresh[*d] = true;
                 fed_bytes[*d] = 0;
